@@ -10,7 +10,7 @@ Inductive eerr := EUnexpectedData | EIORead (e : ioerr) | EIOWrite (e : ioerr) |
 Inductive derr := DChunkLen | DChaPolyDecrypt | DUnexpectedData | DIORead (e : ioerr) | DIOWrite (e : ioerr)
                 | DOtherFormat       (* "Invalid file format." / unsupported format *)
                 | DOtherWrongMode    (* password file given to key decrypt and vice versa *)
-                | DOtherNoise.       (* noise_decrypt error text *)
+                | DOtherNoise (e : noise_err).  (* noise_decrypt error text *)
 
 (* decrypt.rs::read_err maps UnexpectedEof to a plain Other io error *)
 Definition d_read_err (e : ioerr) : derr :=
